@@ -120,8 +120,12 @@ func main() {
 		if len(reps) > 4 {
 			reps = []string{reps[0], reps[2], reps[4]} // log, SQL metric, in-process metric
 		}
-		if !thorough && len(reps) > 2 {
-			reps = reps[1:] // quick: the metric queries carry the arithmetic on the window
+		if !thorough {
+			if len(reps) > 2 {
+				reps = reps[1:] // quick: the metric queries carry the arithmetic on the window
+			} else {
+				reps = reps[:1]
+			}
 		}
 		for _, q := range reps {
 			for _, pp := range boundaryCases(s, thorough) {
@@ -173,6 +177,11 @@ func main() {
 			add(Case{Group: "G3", Route: "loki_tail", Query: q, Fault: f})
 		}
 	}
+	// the slow cases (websocket conversations, pollers that live until their next 1 s tick) are dispatched first
+	// so that they overlap with the rest instead of forming the tail of the phase
+	sort.SliceStable(cases, func(i, j int) bool {
+		return strings.HasPrefix(cases[i].Route, "loki_tail") && !strings.HasPrefix(cases[j].Route, "loki_tail")
+	})
 	t0 := time.Now()
 	results := p.runAll(cases)
 	r.Extra["phase1_wall_s"] = time.Since(t0).Seconds()
@@ -446,7 +455,24 @@ func (p *pool) postMortem(w *worker, c Case, hint string) *Result {
 	var frames []string
 	if m := panicLine.FindStringSubmatchIndex(s); m != nil {
 		msg = s[m[4]:m[5]]
-		kind = panicKind(strings.TrimPrefix(msg, "runtime: "))
+		// "panic: X [recovered]\n\tpanic: Y": X was recovered and Y (raised while handling it) is what killed
+		// the process; the class names Y, the text keeps both
+		rest := s[m[1]:]
+		for {
+			rest = strings.TrimPrefix(rest, "\n")
+			line, tail, _ := strings.Cut(rest, "\n")
+			t := strings.TrimSpace(line)
+			if !strings.HasPrefix(t, "panic: ") {
+				break
+			}
+			msg += " -> " + strings.TrimPrefix(t, "panic: ")
+			rest = tail
+		}
+		last := msg
+		if i := strings.LastIndex(msg, " -> "); i >= 0 {
+			last = msg[i+4:]
+		}
+		kind = panicKind(strings.TrimPrefix(last, "runtime: "))
 		if kind == "out_of_memory" {
 			oom = true
 		}
@@ -471,12 +497,8 @@ func (p *pool) postMortem(w *worker, c Case, hint string) *Result {
 		}
 	}
 	if oom {
-		for i := len(frames) - 1; i >= 0; i-- {
-			if !strings.HasSuffix(frames[i], "-fm") {
-				fn = frames[i]
-				break
-			}
-		}
+		// fn = innermost repository frame of the allocating goroutine (stable under wrapper refactorings; for a
+		// handler that computes inside a library it is the handler itself, the same name a busy hang gets).
 		// memory exhaustion and "still computing after the bound" are the same failure (work not bounded by the
 		// request) observed at different speeds: one class, so that the verdict does not depend on machine load
 		return &Result{ID: c.ID, Class: "unbounded:" + fn,
@@ -696,14 +718,30 @@ func (p *pool) confirmAll(cases []Case, results map[int]*Result) {
 			p.flaky = append(p.flaky, s.class+" — "+s.c.String())
 			continue
 		}
-		p.classes[s.class]++
-		reported[s.class]++
-		if reported[s.class] <= 3 {
-			p.r.Violate(s.class, s.what+" — "+s.c.String(), s.c)
-		} else {
-			p.r.Violate(s.class, s.what, s.c) // counted by ev (known) or capped per class
+		// a leak names every leaked function; report one class per function, so that the known list is keyed by
+		// single goroutines and an unlisted one still fails
+		for _, cls := range splitLeak(s.class) {
+			p.classes[cls]++
+			reported[cls]++
+			if reported[cls] <= 3 {
+				p.r.Violate(cls, s.what+" — "+s.c.String(), s.c)
+			} else {
+				p.r.Violate(cls, s.what, s.c) // counted by ev (known) or capped per class
+			}
 		}
 	}
+}
+
+func splitLeak(class string) []string {
+	kind, rest, ok := strings.Cut(class, ":")
+	if !ok || !strings.HasPrefix(kind, "leak") {
+		return []string{class}
+	}
+	var out []string
+	for _, fn := range strings.Split(rest, "+") {
+		out = append(out, kind+":"+fn)
+	}
+	return out
 }
 
 // confirm runs the case alone in confirmRuns fresh workers; it is reproduced only if every run fails with the
@@ -794,7 +832,9 @@ func replay(r *ev.Run, p *pool) {
 	fmt.Printf("replay: %s\n  status=%d statements=%v class=%q %s\n", c, res.Out.Status, res.Keys, res.Class, res.What)
 	if res.Class != "" {
 		if p.confirm(c, res.Class) == "reproduced" {
-			r.Violate(res.Class, res.What+" — "+c.String(), c)
+			for _, cls := range splitLeak(res.Class) {
+				r.Violate(cls, res.What+" — "+c.String(), c)
+			}
 		}
 	}
 	r.Finish()
